@@ -306,6 +306,31 @@ class BA:
                 break
         return sorted(out)
 
+    def config_guards(self, bb):
+        """Switch blocks on a *literal* (`cfg!(..)` as used by debug_assert!) that lie on every path to
+        bb although bb is not their join point: bb only executes under that build configuration."""
+        out = []
+        for i in sorted(self.live):
+            t = self.b.blocks[i]["term"]
+            if t["t"] != "switch":
+                continue
+            c = t["discr"].get("const")
+            if c is None:
+                pl = t["discr"].get("move") or t["discr"].get("copy")
+                if pl is not None and not pl["p"]:
+                    for st in self.b.blocks[i]["stmts"]:
+                        if st["s"] == "assign" and st["place"]["l"] == pl["l"] and not st["place"]["p"] and st["rv"]["k"] == "use":
+                            c = st["rv"]["op"].get("const")
+            if c is None or ("bool" not in c and "int" not in c):
+                continue
+            if not self.dominates(i, bb) or i == bb:
+                continue
+            # bb inside the guarded region: some successor of the raw switch (all arms) does not reach bb
+            raw = [tg for _, tg in t["arms"]] + [t["otherwise"]]
+            if any(self.path([x], [bb], incl=True) is None for x in raw):
+                out.append(i)
+        return out
+
     def all_calls(self):
         return [i for i in sorted(self.live)
                 if self.b.blocks[i]["term"]["t"] == "call" and not self.b.is_cleanup(i)]
@@ -378,7 +403,7 @@ class BA:
                         return cur
                     continue
                 return cur
-            if rv["k"] == "use":
+            if rv["k"] in ("use", "cast"):
                 p = op_place(rv["op"])
                 if p is None:
                     return cur
@@ -400,7 +425,7 @@ class BA:
             rv = d[3]
             if rv["k"] == "ref":
                 cur = rv["place"]["l"]
-            elif rv["k"] == "use" and op_place(rv["op"]) is not None:
+            elif rv["k"] in ("use", "cast") and op_place(rv["op"]) is not None:
                 cur = op_place(rv["op"])["l"]
             else:
                 break
